@@ -13,6 +13,15 @@ use serde_json::json;
 
 fn decode(h: &[u16; 60]) -> Result<Message, String> {
     let b = enc::encode_halfwords(h);
+    // every other message goes through a reader that returns short reads
+    if h[59] & 1 == 1 {
+        let mut rd = mon::DribbleReader::new(std::io::Cursor::new(&b[..]), h[0] as u64);
+        return match mon::catch(|| decode_rda_status_message(&mut rd)) {
+            Ok(Ok(m)) => Ok(m),
+            Ok(Err(e)) => Err(format!("error {e:?} (short-read reader)")),
+            Err(p) => Err(p.signature()),
+        };
+    }
     match mon::catch(|| decode_rda_status_message(&mut &b[..])) {
         Ok(Ok(m)) => Ok(m),
         Ok(Err(e)) => Err(format!("error {e:?}")),
@@ -384,6 +393,89 @@ oracle = DESIGN.md Appendix B (transcribed from the rustdoc on the wire fields)"
         }
     }
 
+    // ---- the summary of a status message mirrors its accessors (summarize/rda.rs) ------------------------------
+    {
+        use nexrad_decode::messages::decode_messages;
+        let n = ctx.tier.pick(3_000, 150_000);
+        for i in 0..n {
+            let mut h = enc::gen_rda_status_in_domain(&mut rng);
+            if i % 3 == 0 {
+                h[14] = 0; // no alarm summary bits, whatever the alarm-code slots hold
+            }
+            if i % 5 == 0 {
+                for a in h[26..40].iter_mut() {
+                    *a = 0;
+                }
+            }
+            let mh = enc::MsgHeader::realistic(&mut rng, 2);
+            let frame = enc::frame(&mh, &enc::encode_halfwords(&h), 0);
+            ctx.obs.case(mix(125, i));
+            let replay = json!({"halfwords": h.to_vec()});
+            let msgs = match mon::catch(|| decode_messages(&mut std::io::Cursor::new(&frame[..]))) {
+                Ok(Ok(m)) if m.len() == 1 => m,
+                _ => {
+                    ctx.obs.violation("type-2 frame does not decode to one message", "", replay);
+                    continue;
+                }
+            };
+            let info = match mon::catch(|| nexrad_decode::summarize::messages(&msgs)) {
+                Ok(s) => s.message_groups.first().and_then(|g| g.rda_status_info.clone()),
+                Err(p) => {
+                    ctx.obs.violation(format!("summarize {}", p.signature()), p.message, replay);
+                    continue;
+                }
+            };
+            let Some(info) = info else {
+                ctx.obs.violation("summary has no status info for a status message", "", replay);
+                continue;
+            };
+            let vcp = h[7] as i16;
+            let summary_bits = h[14] & 0x7F;
+            let alarm_names = ["Tower/utilities", "Pedestal", "Transmitter", "Receiver", "RDA control", "Communication", "Signal processor"];
+            let want_alarms: Vec<String> = (0..7).filter(|b| summary_bits >> b & 1 == 1).map(|b| alarm_names[b].to_string()).collect();
+            let mut want_data: Vec<String> = Vec::new();
+            if h[6] & 1 != 0 {
+                want_data.push("None".into());
+            } else {
+                if h[6] & 2 != 0 {
+                    want_data.push("Reflectivity".into());
+                }
+                if h[6] & 4 != 0 {
+                    want_data.push("Velocity".into());
+                }
+                if h[6] & 8 != 0 {
+                    want_data.push("Spectrum Width".into());
+                }
+            }
+            let checks: [(&str, bool); 9] = [
+                ("has_alarms", info.has_alarms == (h[14] != 0)),
+                ("active_alarms", info.active_alarms == want_alarms),
+                ("average_transmitter_power", info.average_transmitter_power == h[4]),
+                ("vcp_number", info.vcp_number == if vcp == 0 { None } else { Some(vcp.abs()) }),
+                ("vcp_is_local", info.vcp_is_local == (vcp < 0)),
+                ("reflectivity_calibration", info.reflectivity_calibration.to_bits() == (h[5] as f32 / 100.0).to_bits() || info.reflectivity_calibration.to_bits() == ((h[5] as i16) as f32 / 100.0).to_bits()),
+                ("data_transmission_enabled", info.data_transmission_enabled == want_data),
+                ("operability_status", info.operability_status == match h[1] { 2 => "OnLine", 4 => "MaintenanceActionRequired", 8 => "MaintenanceActionMandatory", 16 => "CommandedShutDown", _ => "Inoperable" }),
+                ("control_status", info.control_status == match h[2] { 2 => "LocalControlOnly", 4 => "RemoteControlOnly", _ => "EitherLocalOrRemoteControl" }),
+            ];
+            let mut ok = true;
+            for (name, good) in checks {
+                if !good {
+                    ok = false;
+                    ctx.obs.violation(
+                        format!("status summary field {} does not mirror the message", name),
+                        format!("alarm summary word {:#06x}, alarm codes {:?}: {:?}", h[14], &h[26..40], info),
+                        replay.clone(),
+                    );
+                    break;
+                }
+            }
+            if ok {
+                ctx.obs.count("status_summaries_mirror_the_message", 1);
+            }
+        }
+    }
+
     // ---- alarm_messages(): non-zero codes, message order ----------------------------------------------------
     let n = ctx.tier.pick(5_000, 5_000_000);
     for i in 0..n {
@@ -399,6 +491,14 @@ oracle = DESIGN.md Appendix B (transcribed from the rustdoc on the wire fields)"
         if i % 7 == 0 {
             let c = m.alarm_codes[0];
             m.alarm_codes[5] = c; // duplicates
+        }
+        if i % 5 == 1 {
+            // the same code in neighbouring slots, or separated only by empty / undefined slots
+            let k = rng.usize_below(12);
+            let c = rng.range(1, 800) as u16;
+            m.alarm_codes[k] = c;
+            m.alarm_codes[k + 1] = *rng.pick(&[c, 0, 900]);
+            m.alarm_codes[k + 2] = c;
         }
         ctx.obs.case(mix(124, i));
         let want: Vec<u16> = m.alarm_codes.iter().copied().filter(|c| *c != 0 && *c <= 800).collect();
